@@ -26,6 +26,13 @@ func (x *inst) applyMgmt(ev string, f []string) {
 	case "Close":
 		err := x.guard(ev, func() error { return x.api().Close() })
 		x.observe("%s -> %v", ev, err != nil)
+		if x.cfg.ViaREST && !m.Open {
+			// the REST layer has no close action for a closed replica (the engine call is idempotent)
+			if err == nil {
+				x.violate("invalid-accepted", "close-on-closed-accepted", "the close action was accepted on a closed replica")
+			}
+			return
+		}
 		if err != nil {
 			x.violate("close-failed", "close-failed", err.Error())
 			return
